@@ -102,12 +102,13 @@ class Broken(Exception):
 
 
 class Ctx:
-    def __init__(self, pid, tier, seed):
+    def __init__(self, pid, tier, seed, replay=False):
         self.pid = pid
         self.tier = tier
         self.seed = seed
         self.t0 = time.time()
-        self.work = os.path.join(WORK, pid)
+        # a replay run gets its own scratch directory so that the replay file under work/<pid> survives
+        self.work = os.path.join(WORK, pid + ("-replay" if replay else ""))
         shutil.rmtree(self.work, ignore_errors=True)
         os.makedirs(self.work, exist_ok=True)
         os.makedirs(os.path.join(ROOT, "evidence"), exist_ok=True)
